@@ -76,11 +76,11 @@ def slug(s):
 def obligation_id(unit, e):
     return "%s::%s::%s[%s]" % (unit, e["owner"], slug(e["msg"])[:48], e["site"])
 
-def run_unit(unit, strict=True, rlimit=None, tag="", text_override=None, threads=None, extra_args=None):
+def run_unit(unit, strict=True, rlimit=None, tag="", text_override=None, threads=None, extra_args=None, pid=None):
     t0 = time.time()
     res = UnitResult(unit)
     try:
-        built = U.build(unit, strict=strict)
+        built = U.build(unit, strict=strict, pid=pid)
     except U.LostAnchor as ex:
         res.status = "tool"; res.tool_errors.append(str(ex)); res.wall = time.time() - t0; return res
     except Exception as ex:
@@ -91,7 +91,7 @@ def run_unit(unit, strict=True, rlimit=None, tag="", text_override=None, threads
     if not built.selfcheck:
         res.status = "tool"; res.tool_errors.append("self-check failed: stripping the woven file does not give back the extracted code")
         res.wall = time.time() - t0; return res
-    d = os.path.join(BUILD, unit + tag)
+    d = os.path.join(BUILD, (pid + "-" if pid else "") + unit + tag)
     os.makedirs(d, exist_ok=True)
     gen = os.path.join(d, unit + ".rs")
     open(gen, "w").write(built.text)
